@@ -11,12 +11,20 @@
    regex fields for RewriteFields, name conflicts and top()/bottom() tags for ColumnNames and the
    name queries, INTO targets and sub-queries for RequiredPrivileges (measured once with
    go test -coverpkg over ast.go: conditionExpr, ColumnNames, FieldExprByName, walkNames 100 %).          *)
-EXTENDS Naturals, Sequences
+EXTENDS Naturals, Sequences, TLC
 
 St(t) == [text |-> t, rich |-> FALSE]
 Rich(t) == [text |-> t, rich |-> TRUE]
 
-Core == <<
+\* LONG left-leaning chains (a dashboard's multi-value selector, the output of a regex rewrite): an implementation
+\* that walks the spine with a fixed-size stack or in blocks shows at a length
+RECURSIVE OrChain(_), SumChain(_)
+OrChain(n) == IF n = 1 THEN "h = 'a1'" ELSE OrChain(n - 1) \o " OR h = 'a" \o ToString(n) \o "'"
+SumChain(n) == IF n = 1 THEN "x1" ELSE SumChain(n - 1) \o " + x" \o ToString(n)
+LongStmts == <<St("SELECT " \o SumChain(34) \o " FROM m WHERE " \o OrChain(33))>>
+LongExprs == <<OrChain(33), OrChain(65), SumChain(130)>>
+
+CoreHand == <<
   Rich("SELECT time AS ts, count(DISTINCT v), top(w, host, 3) INTO db.rp.t FROM m, (SELECT a FROM n WHERE x > 1) WHERE host =~ /^(a|b)$/ AND time > now() - 1h AND region = 'x' GROUP BY time(5m, 1m), host fill(1.5) ORDER BY time DESC LIMIT 5 OFFSET 2 SLIMIT 3 SOFFSET 1 tz('America/Chicago')"),
   Rich("SELECT v INTO t FROM m"),
   Rich("SELECT DISTINCT v, time FROM db.rp.m WHERE host =~ /^a$/ OR host !~ /^b$/ GROUP BY time(1h) fill(3)"),
@@ -88,6 +96,7 @@ Core == <<
   \* regex conditions: rewritten and not rewritten shapes
   St("SELECT v FROM m WHERE a =~ /^a/ AND b =~ /a$/ AND c =~ /^(a|b.*)$/ AND d !~ /^a|b$/ AND e =~ /^(x)$/ AND f =~ /^x\\.y$/")
 >>
+Core == CoreHand \o LongStmts
 
 (* ------------------------------------------------------------------ combined clauses *)
 FieldsOpt == <<"v", "v, w AS ww", "*", "mean(v)", "count(DISTINCT v), w", "DISTINCT v", "time AS ts, v",
